@@ -96,9 +96,9 @@ func render(info *types.Info, e ast.Expr, subst map[types.Object]string) string 
 type pcond struct {
 	expr  ast.Expr
 	truth bool
-	loop  bool // comes from a for-loop condition
+	loop  bool        // comes from a for-loop condition
 	exit  *ast.IfStmt // negation of this early exit
-	text  string // for type-switch cases and comma-ok
+	text  string      // for type-switch cases and comma-ok
 }
 
 // splitCond flattens && (when true) and || (when false) and strips negations.
